@@ -146,10 +146,12 @@ Result(ns, os, ord) ==
 (* dependency edges: operands always; declared dependencies if withdeps *)
 Before(ns, i, withdeps) ==
   {r - NIn : r \in ({ns[i].a, ns[i].b} \cup (IF withdeps THEN {ns[i].d} ELSE {})) \ (0..NIn)}
-ValidOrder(ns, ord, withdeps) ==
-  \A p \in DOMAIN ord : \A j \in Before(ns, ord[p], withdeps) : \E q \in 1..(p - 1) : ord[q] = j
-Orders(ns, withdeps) ==
-  {ord \in [1..Len(ns) -> 1..Len(ns)] : Cardinality(Range(ord)) = Len(ns) /\ ValidOrder(ns, ord, withdeps)}
+(* all topological orders, built by extension (only valid prefixes are extended) *)
+RECURSIVE Extend(_, _, _, _)
+Extend(ns, prefix, rest, withdeps) ==
+  IF rest = {} THEN {prefix}
+  ELSE UNION {Extend(ns, Append(prefix, i), rest \ {i}, withdeps) : i \in {j \in rest : Before(ns, j, withdeps) \subseteq Range(prefix)}}
+Orders(ns, withdeps) == Extend(ns, <<>>, DOMAIN ns, withdeps)
 IdOrder(ns) == [i \in 1..Len(ns) |-> i]
 
 WellFormed(ns, os) == \A ord \in Orders(ns, TRUE) : Result(ns, os, ord) = Result(ns, os, IdOrder(ns))
